@@ -204,7 +204,7 @@ func (m *monC16) Finish(rc *RunCtx) {
 }
 
 func init() {
-	simProps["C16"] = simProp{checkSpec{Prop: "C16", Level: "exploration", NQuick: 400, NThorough: 12000,
+	simProps["C16"] = simProp{checkSpec{Prop: "C16", Level: "exploration", NQuick: 2000, NThorough: 40000,
 		Rule:   "cases = generated rotations of the shipped annual crops whose sowing windows open after the latest harvest date of the preceding crop, random automatic-management tables (windows, triggers, stage windows, daily maxima, N demands, organic fertiliser), the four automation switches drawn independently (20% of the cases fully manual), all weather; sowing / harvest days from the management event log are checked against windows, latest dates and fixed dates, every automatic irrigation against stage window and daily maximum at the moment it is applied, automatic N applications for sign; non-trivial = >30 days, at least one switch on and at least one sowing",
 		Floors: []string{"sowings_triggered_inside_window", "sowings_forced_at_window_end", "sowings_fixed_date", "harvests_triggered_before_latest_date", "harvests_forced_at_latest_date", "harvests_fixed_date", "auto_irrigations", "auto_n_applications", "crop_records_checked"}},
 		func() []Monitor { return []Monitor{&monC16{}} }}
